@@ -762,9 +762,9 @@ pub fn run_pkg(o: &Opts) {
     sink.line("packages", &format!("found={} offered={} callers={} todo={}", !body.is_empty() as u8, offered_in_packages as u8, callers.len(), todo_markers));
     sink.note("datagram_flow_uses_in_qconnection", serde_json::json!(flow_mentions));
     if body.is_empty() {
-        mfail(sink, "packages:not-found", "could not locate `fn packages` in qconnection/src/path/burst.rs (source left the recognised shape)");
+        mfail(&mut sink, "packages:not-found", "could not locate `fn packages` in qconnection/src/path/burst.rs (source left the recognised shape)");
     } else if !offered_in_packages && callers.is_empty() {
-        mfail(sink, 
+        mfail(&mut sink, 
             "datagram-never-offered:packages",
             &format!("Components::packages() (qconnection/src/path/burst.rs) builds the 0-RTT and 1-RTT data sources without the datagram queue ({} `// TODO: datagram` markers) and nothing in qconnection calls DatagramFlow::try_load_data_into: an accepted datagram is never put on the wire. uses of datagram_flow: {:?}", todo_markers, flow_mentions));
     }
